@@ -8,6 +8,9 @@
 //!   fs simreplay in=<behaviours.ndjson> out=<summary.json> ps=.. [every=<n>]
 //!       the behaviours that end in a crash, executed by host software inside a running `Sim`; the crash is
 //!       `Sim::crash` + `Sim::bounce`, the restarted software reads the tree back.
+//!   fs torn in=<behaviours.ndjson> out=<trace.ndjson> ps=.. block=<b> seeds=<n>
+//!       the histories that end in a crash, executed with `block_size` set under many fs seeds; every distinct
+//!       post-crash image is recorded as a run (membership in the permitted set is decided by TLC).
 //!   fs random seed=<n> runs=<n> len=<n> out=<trace.ndjson> [crash=<percent>] [fe=..] [rich=0|1]
 //!       seeded random histories on the real code, recorded as one NDJSON trace (reset / op events).
 //!
@@ -359,6 +362,7 @@ fn view_paths(ps: &[String]) -> Value {
     let mut out = Vec::new();
     for p in ps {
         let (mut k, mut l, mut d) = ("none".to_string(), 0u64, Vec::new());
+        let mut tails: Vec<Value> = Vec::new();
         if let Ok(m) = sfs::metadata(p) {
             if m.is_dir() {
                 k = "dir".into();
@@ -369,17 +373,26 @@ fn view_paths(ps: &[String]) -> Value {
                     Ok(c) => d = c,
                     Err(e) => k = format!("file(read failed: {e})"),
                 }
+                // positional reads that do not start at 0: the tails from the offsets 1..3
+                if let Ok(f) = sfs::File::open(p) {
+                    for o in 1..=l.min(3) {
+                        let mut buf = vec![0u8; (l - o) as usize];
+                        match f.read_at(&mut buf, o) {
+                            Ok(n) => tails.push(bytes_json(&buf[..n])),
+                            Err(e) => tails.push(json!(format!("read_at failed: {e}"))),
+                        }
+                    }
+                }
             }
         }
         let (ed, e) = match sfs::read_dir(p) {
             Ok(rd) => (true, entries_json(rd)),
             Err(_) => (false, json!([])),
         };
-        out.push(json!({"k": k, "l": l, "d": bytes_json(&d), "ed": ed, "e": e}));
+        out.push(json!({"k": k, "l": l, "d": bytes_json(&d), "t": tails, "ed": ed, "e": e}));
     }
     Value::Array(out)
 }
-
 
 fn entries_json(rd: sfs::ReadDir) -> Value {
     let mut v: Vec<String> = rd.filter_map(|e| e.ok()).map(|e| e.path().to_string_lossy().to_string()).collect();
@@ -699,7 +712,7 @@ impl Gen {
                     let h = self.pick(&open_slots);
                     let (_rd, wr, app) = self.open[h].unwrap();
                     let off = self.rng.random_range(0..=self.maxoff);
-                    let n = self.rng.random_range(0..=self.maxlen as u64 + 1);
+                    let n = self.rng.random_range(0..=self.maxlen as u64 + 3);
                     match self.rng.random_range(0..12u32) {
                         0 | 1 if !app => json!({"k": "write_at", "h": h + 1, "off": off, "data": self.data()}),
                         2 | 3 => json!({"k": "write", "h": h + 1, "data": self.data()}),
@@ -802,7 +815,7 @@ fn main_random(args: &[String]) {
             open: vec![None; maxh],
             bytes: if rich { 3 } else { 2 },
             maxlen: if rich { 3 } else { 1 },
-            maxoff: if rich { 4 } else { 2 },
+            maxoff: if rich { 7 } else { 3 },
             crash_pct,
             dir_rename,
             knob,
@@ -835,7 +848,7 @@ struct Shared {
     done: bool,
 }
 
-fn sim_line(beh: &Value, ps: &[String], maxh: usize, tk: bool) -> Vec<Value> {
+fn sim_line(beh: &Value, ps: &[String], maxh: usize, tk: bool, park: bool) -> Vec<Value> {
     use std::cell::RefCell;
     use std::rc::Rc;
     let mut ops: Vec<Value> = beh["h"].as_array().map(|a| a.iter().map(|e| e["op"].clone()).collect()).unwrap_or_default();
@@ -875,8 +888,11 @@ fn sim_line(beh: &Value, ps: &[String], maxh: usize, tk: bool) -> Vec<Value> {
                 }
                 s.done = true;
             }
-            // the open files stay alive until the host is crashed
-            std::future::pending::<()>().await;
+            if park {
+                // the open files stay alive until the host is crashed
+                std::future::pending::<()>().await;
+            }
+            // otherwise the software has done its work and returns: the host is idle (not running) when it is crashed
             drop(files);
             Ok(())
         }
@@ -891,6 +907,8 @@ fn sim_line(beh: &Value, ps: &[String], maxh: usize, tk: bool) -> Vec<Value> {
             }
         }
         if seg + 1 < nseg {
+            // one more step: a host whose software returned is noticed as finished by the simulation
+            let _ = sim.step();
             sim.crash("h");
             {
                 let mut s = shared.borrow_mut();
@@ -923,8 +941,10 @@ fn main_simreplay(args: &[String]) {
         if beh["last"]["op"]["k"] != json!("crash") {
             continue;
         }
+        // twice: the software parks after its calls (crash of a running host) / returns Ok (crash of an idle host)
+        for park in [true, false] {
         total += 1;
-        let res = sim_line(&beh, &ps, maxh, tk);
+        let res = sim_line(&beh, &ps, maxh, tk, park);
         // compare every crash image with the direct-drive prediction of TLC
         let mut k = 0usize;
         let mut good = true;
@@ -934,6 +954,7 @@ fn main_simreplay(args: &[String]) {
                 crashes += 1;
                 if res.get(k).map(|r| !image_matches(&ps, &r["v"], &e["rr"]["v"])).unwrap_or(true) {
                     good = false;
+                    what = json!({"crash_in_prefix": k, "observed": res.get(k), "ref": e["rr"]["v"]});
                 }
             }
             k += 1;
@@ -956,14 +977,81 @@ fn main_simreplay(args: &[String]) {
         if good {
             okc += 1;
         } else if bad.len() < 10 {
-            bad.push(json!({"line": li, "behaviour": beh, "what": what, "results": res}));
+            bad.push(json!({"line": li, "software": if park { "parked" } else { "returned" }, "behaviour": beh, "what": what, "results": res}));
         } else {
             bad.push(json!({"line": li}));
+        }
         }
     }
     let summary = json!({"behaviours": total, "ok": okc, "crashes": crashes, "bad_count": bad.len(), "bad": bad.iter().take(10).collect::<Vec<_>>()});
     std::fs::write(&out, serde_json::to_string(&summary).unwrap()).unwrap();
     println!("{total} crash behaviours through Sim::crash/bounce ({crashes} crashes): {okc} as predicted, {} not", bad.len());
+}
+
+// ---------------------------------------------------------------------------------------------
+// torn writes: every history that ends in a crash, executed with block_size set under many fs seeds (the
+// tearing choices are drawn from the per-host rng); every distinct outcome is recorded as a run for TLC
+
+fn main_torn(args: &[String]) {
+    let inp = util::arg(args, "in").expect("in=");
+    let out = util::arg(args, "out").expect("out=");
+    let maxh = util::arg_u64(args, "maxh", 1) as usize;
+    let block = util::arg_u64(args, "block", 2);
+    let seeds = util::arg_u64(args, "seeds", 16);
+    let fe = util::arg(args, "fe").unwrap_or("std".into());
+    let ps: Vec<String> = util::arg(args, "ps").expect("ps=").split(',').map(|s| s.to_string()).collect();
+    let text = std::fs::read_to_string(&inp).expect("read behaviours");
+    let mut seen_hist: std::collections::HashSet<String> = Default::default();
+    let mut all: Vec<Value> = Vec::new();
+    let (mut hists, mut runs, mut multi, mut torn) = (0u64, 0u64, 0u64, 0u64);
+    for line in text.lines() {
+        if line.trim().is_empty() {
+            continue;
+        }
+        let beh: Value = serde_json::from_str(line).expect("behaviour json");
+        if beh["last"]["op"]["k"] != json!("crash") {
+            continue;
+        }
+        let mut ops: Vec<Value> = beh["h"].as_array().map(|a| a.iter().map(|e| e["op"].clone()).collect()).unwrap_or_default();
+        ops.push(beh["last"]["op"].clone());
+        // the same history is emitted once per tearing choice of the model
+        if !seen_hist.insert(serde_json::to_string(&ops).unwrap()) {
+            continue;
+        }
+        hists += 1;
+        let mut outcomes: std::collections::HashSet<String> = Default::default();
+        for seed in 0..seeds {
+            let mut cfg = FsConfig::default();
+            cfg.block_size(block);
+            let mut host = Host::new(maxh, seed * 7919 + hists, &fe, cfg);
+            let mut evs = vec![json!({"ev": "reset", "ps": ps, "st": 0, "hasst": false})];
+            for op in &ops {
+                let r = host.exec(op);
+                let crash = op["k"] == json!("crash");
+                let st = if crash { host.state() } else { json!(0) };
+                evs.push(json!({"ev": "op", "op": op, "res": r, "view": [], "st": st, "hasst": crash}));
+            }
+            let image = serde_json::to_string(&evs.last().unwrap()["res"]["v"]).unwrap();
+            if outcomes.insert(image) {
+                runs += 1;
+                for (i, mut ev) in evs.into_iter().enumerate() {
+                    ev["run"] = json!(runs);
+                    ev["i"] = json!(i);
+                    ev["line"] = json!(hists);
+                    ev["seed"] = json!(seed);
+                    all.push(ev);
+                }
+            }
+        }
+        if outcomes.len() > 1 {
+            multi += 1;
+        }
+        if outcomes.len() > 2 {
+            torn += 1;
+        }
+    }
+    util::write_ndjson(&out, &all);
+    println!("{hists} crash histories x {seeds} seeds with block_size {block}: {runs} distinct outcomes recorded, {multi} histories with more than one image, {torn} with more than two");
 }
 
 fn main() {
@@ -972,6 +1060,7 @@ fn main() {
         Some("replay") => main_replay(&args[1..]),
         Some("random") => main_random(&args[1..]),
         Some("simreplay") => main_simreplay(&args[1..]),
+        Some("torn") => main_torn(&args[1..]),
         _ => {
             eprintln!("usage: fs replay|random key=value ...");
             std::process::exit(2);
